@@ -36,19 +36,19 @@ CHECKS = {
    ref="§3 C13"),
  "C14": dict(
    category="exploration",
-   text="Blocking Writer -> byte stream -> Reader run under a scripted io::Write / io::Read: every short-read/short-write split, EINTR placement (incl. storms replayed over long histories), truncation offset, poison frame, hostile length prefix, zero-length frame, accept-zero sink and max_len knob (incl. mid-run changes, exactly the default limit, 'no limit') is a scripted lane step or knob; sources with an all-or-nothing read_exact override, scribbling of unfilled buffer space and vectored I/O are part of the environment; run shapes cover 1-8 frames, 17-48 and 257-600 frame histories with size spikes, 65 700 frames, big frames (64-200 KiB, also delivered in uniform small pieces), a >16 MiB frame, identical consecutive frames and roomy/garbage recycled buffers. Single-fault sweeps (every cut offset, every chunk size, EINTR before every call, each fatal kind before every call, all 2^(n-1) compositions of a short stream) give a seed-independent floor; the seeded swarm search explores the interactions. Oracle: single-copy frame log + sequential stream parser + counting allocator armed around library calls (every new allocation is judged against the limit in force, also after InvalidLen).",
+   text="Blocking Writer -> byte stream -> Reader run under a scripted io::Write / io::Read: every short-read/short-write split, EINTR placement (incl. storms replayed over long histories), truncation offset, poison frame, hostile length prefix, zero-length frame, accept-zero sink and max_len knob (incl. mid-run changes, exactly the default limit also through with_buffer with buffers roomier than the limit, 'no limit') is a scripted lane step or knob; complete frames whose payload lies about its size (array/map/string headers announcing millions of elements) are read by the owning families; sources with an all-or-nothing read_exact override, scribbling of unfilled buffer space and vectored I/O are part of the environment; run shapes cover 1-8 frames, 17-48 and 257-600 frame histories with size spikes, 65 700 frames, big frames (64-200 KiB, also delivered in uniform small pieces), a >16 MiB frame, identical consecutive frames and roomy/garbage recycled buffers. Single-fault sweeps (every cut offset, every chunk size, EINTR before every call, each fatal kind before every call, all 2^(n-1) compositions of a short stream) give a seed-independent floor; the seeded swarm search explores the interactions. Oracle: single-copy frame log + sequential stream parser + counting allocator armed around library calls (every new allocation is judged against the limit in force, also after InvalidLen; a request of >= 64 GiB is reported as a violation with a replay file instead of aborting the process).",
    note="Needs the fix: commit e713753 in /repo (Reader reserved by Vec's amortised growth and could hold a buffer of nearly 2 x max_len; see known_findings.json). The allocation clause is literal: frame-buffer capacity <= max(max_len, caller-provided capacity). After the first InvalidLen / UnexpectedEof / fatal error the reader phase of a run ends. Payload codec is the library's own.",
    technique="deterministic simulation with fault injection: seeded search over scripted short reads/writes, EINTR, truncation, poison frames, hostile prefixes; single-fault sweeps; frame-log reference model",
    ref="§3 C14"),
  "C15": dict(
    category="exploration",
-   text="AsyncReader::read runs under a hand-written single-task executor and a scripted AsyncRead that own every poll outcome (deliver k bytes / Pending / one of ten transient error kinds / EOF) and every caller decision (keep polling / drop the future and re-issue read, incl. on every Pending once the script ends). Sweeps place a cancellation at every Pending position, each error kind before every byte, every cut offset, every chunk size and every pair of cancellations on small fixed streams; all lanes of depth 7 (thorough: 9) over a six-letter alphabet are enumerated; a seeded swarm search covers the interactions (1-600 frames with spikes and fault storms, 65 700 frames, 18 payload families incl. borrowed, zero-length, tag-55799 and sequence-reading types, big frames in uniform small pieces, garbage/roomy initial buffers, max_len knobs incl. mid-frame, into_parts/with_buffer round trips, reader_mut touches) and a two-task pipe world with honest wakers (lost wake-ups are deadlocks). Oracle: frame log, exactly-once error reporting, truncation, no-early-value and bounded progress once faults stop.",
+   text="AsyncReader::read runs under a hand-written single-task executor and a scripted AsyncRead that own every poll outcome (deliver k bytes / Pending / one of ten transient error kinds / EOF) and every caller decision (keep polling / drop the future and re-issue read, incl. on every Pending once the script ends). Sweeps place a cancellation at every Pending position, each error kind before every byte, every cut offset, every chunk size and every pair of cancellations on small fixed streams; all lanes of depth 7 (thorough: 9) over a six-letter alphabet are enumerated; a seeded swarm search covers the interactions (1-600 frames with spikes and fault storms, 65 700 frames, 18 payload families incl. borrowed, zero-length, tag-55799 and sequence-reading types, big frames in uniform small pieces, garbage/roomy initial buffers incl. roomier than the default limit, max_len knobs incl. mid-frame, into_parts/with_buffer round trips, reader_mut touches) and a two-task pipe world with honest wakers (lost wake-ups are deadlocks). Oracle: frame log, exactly-once error reporting, truncation, no-early-value and bounded progress once faults stop.",
    note="Sampling, not proof. The executor is single-task (the API is &mut self, so there is no concurrent use to schedule). Payload codec is the library's own. Wake-up correctness of the underlying AsyncRead is the stub's, not the library's.",
    technique="deterministic simulation: scripted AsyncRead + own executor, seeded search over poll/cancel schedules and fault sequences, single/double-fault sweeps, frame-log reference model",
    ref="§3 C15"),
  "C16": dict(
    category="exploration",
-   text="AsyncWriter::write/sync/flush run under the same executor and a scripted AsyncWrite (accept k of n / Pending / ten transient error kinds / accept 0; scripted poll_flush outcomes; vectored writes). The caller follows exactly the licensed protocol (a pending write may be dropped, then sync is driven to completion, itself droppable; flush, writer_mut and set_max_len may be interleaved). After EVERY executor step the sink must equal committed-log ++ prefix-of-in-flight-frame; completed writes report the payload length; idle sync offers nothing; write-zero and transient errors surface once and sync resumes; failing/oversize values add no byte. Sweeps: every accept size, cancel at every position, cancel of the sync at every position, Zero/each error before every byte, max_len around the frame size and at the default limit, enumerated lanes of depth 7 (9); seeded swarm beyond (1-600 items with fault storms, 65 700 items, identical consecutive values, zero-length and non-idempotent encodings, 64-200 KiB frames in uniform small pieces or page-scale pieces, a >16 MiB frame, roomy/garbage buffers) and the two-task pipe world.",
+   text="AsyncWriter::write/sync/flush run under the same executor and a scripted AsyncWrite (accept k of n / Pending / ten transient error kinds / accept 0; scripted poll_flush outcomes; vectored writes). The caller follows exactly the licensed protocol (a pending write may be dropped, then sync is driven to completion, itself droppable; flush, writer_mut and set_max_len may be interleaved). After EVERY executor step the sink must equal committed-log ++ prefix-of-in-flight-frame; completed writes report the payload length; idle sync offers nothing; write-zero and transient errors surface once and sync resumes; failing/oversize values add no byte. Sweeps: every accept size, cancel at every position, cancel of the sync at every position, Zero/each error before every byte, max_len around the frame size and at the default limit (also through with_buffer with buffers roomier than the limit), enumerated lanes of depth 7 (9); seeded swarm beyond (1-600 items with fault storms, 65 700 items, identical consecutive values, zero-length and non-idempotent encodings, 64-200 KiB frames in uniform small pieces or page-scale pieces, a >16 MiB frame, roomy/garbage buffers) and the two-task pipe world.",
    note="Sampling, not proof. Callers that start a new write without syncing after a cancellation are outside the property and not generated. Payload codec is the library's own.",
    technique="deterministic simulation: scripted AsyncWrite + own executor, seeded search over accept/Pending/error/zero outcomes and cancel-then-sync schedules, prefix-of-log invariant after every step",
    ref="§3 C16"),
@@ -77,7 +77,7 @@ m = dict(
     engines=[dict(name="minisim", path="sim", serves_properties=[c["property_id"] for c in checks],
                   kind_free_text="hand-written deterministic simulator (Rust): scripted Read/Write/AsyncRead/AsyncWrite stubs, single-task executor that owns poll/cancel decisions, counting allocator, seeded scenario generator, delta-debugging minimiser, JSON replay files")],
     checks=checks,
-    notes="Technique family: deterministic simulation with fault injection. Properties whose truth is a pure function of the arguments of one call are listed under not_applicable (DESIGN.md §0, §5). known_findings.json: one genuine C14 defect (reader buffer growth beyond max_len), repaired by /repo commit e713753 (fix:); no open findings. tools/selftest.sh proves sensitivity against mutants/ (59) and seeded/ (182 independently written changes, 14 rounds) and the absence of false alarms against controls/ (37 correct re-implementations); tools/mutsweep.py sweeps every single-site syntactic mutant of the anchored files (184 of 193 compiling mutants killed, 9 triaged as equivalent or outside the properties); ./check determinism proves replayability (26 seeds x 3 worker counts x separate processes). Results: DESIGN.md sections 10.3, 11, 12, 13.",
+    notes="Technique family: deterministic simulation with fault injection. Properties whose truth is a pure function of the arguments of one call are listed under not_applicable (DESIGN.md §0, §5). known_findings.json: one genuine C14 defect (reader buffer growth beyond max_len), repaired by /repo commit e713753 (fix:); no open findings. tools/selftest.sh proves sensitivity against mutants/ (59) and seeded/ (207 independently written changes, 16 rounds) and the absence of false alarms against controls/ (37 correct re-implementations); tools/mutsweep.py sweeps every single-site syntactic mutant of the anchored files (184 of 193 compiling mutants killed, 9 triaged as equivalent or outside the properties); ./check determinism proves replayability (26 seeds x 3 worker counts x separate processes). Results: DESIGN.md sections 10.3, 11, 12, 13.",
     not_applicable=na)
 json.dump(m, open(os.path.join(here, "MANIFEST.json"), "w"), indent=1)
 print("MANIFEST.json:", [c["property_id"] for c in checks], "NA:", len(na))
